@@ -182,6 +182,7 @@ type Frame struct {
 	deferState  []deferRec
 	ghosts      map[string]Value
 	whereSym    *Term
+	iter        map[int]*Term // ghost iteration counter of each loop (by ordinal), as seen at the current point
 }
 
 type deferRec struct {
@@ -934,7 +935,7 @@ func prefixMatches(comp string, prefixes map[string]bool) bool {
 		if comp == p || strings.HasPrefix(comp, p+".") {
 			return true
 		}
-		if p == "Map." && strings.HasPrefix(comp, "Map.") {
+		if (p == "Map." || p == "Ghost.") && strings.HasPrefix(comp, p) {
 			return true
 		}
 	}
@@ -988,10 +989,18 @@ func (x *Exec) enterLoop(fr *Frame, li *LoopInfo, cur *State) {
 		spec = fr.fc.Loops[li.Ordinal]
 	}
 	if spec == nil {
-		unsupported("loop %d of %s has no invariant", li.Ordinal, fr.fn.Name())
+		if fr.top.fc == nil || !fr.top.fc.Partial {
+			unsupported("loop %d of %s has no invariant", li.Ordinal, fr.fn.Name())
+		}
+		// partial mode: the trivial invariant (everything the loop may write is havocked)
+		spec = &LoopSpec{}
 	}
 	b := li.Header
 	pos := x.loopPos(fr, li)
+	if fr.iter == nil {
+		fr.iter = map[int]*Term{}
+	}
+	fr.iter[li.Ordinal] = IntLit(0)
 	// 1. invariant holds on entry
 	entryState := cur.clone()
 	for k, inv := range spec.Invariants {
@@ -1002,6 +1011,9 @@ func (x *Exec) enterLoop(fr *Frame, li *LoopInfo, cur *State) {
 		o.Slow = inv.Slow
 	}
 	// 2. havoc loop-carried state
+	itSym := x.vc.fresh(fmt.Sprintf("f%d.iter@L%d", fr.id, li.Ordinal), SInt)
+	x.vc.assume(iGe(itSym, IntLit(0)))
+	fr.iter[li.Ordinal] = itSym
 	prefixes, all := x.loopModified(fr, li)
 	for _, ins := range b.Instrs {
 		phi, ok := ins.(*ssa.Phi)
@@ -1224,8 +1236,19 @@ func (x *Exec) loopPos(fr *Frame, li *LoopInfo) token.Position {
 
 // closeLoop is called when control reaches a back edge.
 func (x *Exec) closeLoop(fr *Frame, li *LoopInfo, from *ssa.BasicBlock, st *State) {
-	spec := fr.fc.Loops[li.Ordinal]
+	var spec *LoopSpec
+	if fr.fc != nil {
+		spec = fr.fc.Loops[li.Ordinal]
+	}
+	if spec == nil {
+		spec = &LoopSpec{}
+	}
 	pos := x.loopPos(fr, li)
+	// the ghost iteration counter has advanced by one on the back edge
+	if it := fr.iter[li.Ordinal]; it != nil {
+		fr.iter[li.Ordinal] = iAdd(it, IntLit(1))
+		defer func() { fr.iter[li.Ordinal] = it }()
+	}
 	// bind phis to their back-edge values
 	saved := map[ssa.Value]Value{}
 	var pi int
@@ -1277,7 +1300,15 @@ func (x *Exec) execBlock(fr *Frame, b *ssa.BasicBlock, st *State) {
 		if _, ok := ins.(*ssa.Phi); ok {
 			continue
 		}
-		x.execInstr(fr, b, ins, st)
+		if fr == fr.top && fr.fc != nil && fr.fc.Partial {
+			// partial mode: a path that reaches an instruction outside the subset is abandoned here; nothing
+			// after this point is checked on it, and the place is reported as an unchecked assumption
+			if x.execInstrPartial(fr, b, ins, st) {
+				return
+			}
+		} else {
+			x.execInstr(fr, b, ins, st)
+		}
 		switch ins.(type) {
 		case *ssa.Store, *ssa.Call, *ssa.MapUpdate, *ssa.Alloc, *ssa.MakeSlice, *ssa.MakeMap, *ssa.MakeInterface, *ssa.MakeClosure, *ssa.Convert, *ssa.RunDefers:
 			x.compactHeap(st)
